@@ -246,10 +246,10 @@ theorem run_no_panic (st : PSt) (cs : List Char) (hg : Good st) (m : String) : r
     have := stepTok_good (tok := s.tok) (lit := s.lit) hg
     rw [hst] at this
     exact ih this
-  case case11 st cs hc s hne st' hst =>
+  case case13 st cs hc s hne st' hst m' hf =>
     have := stepTok_good (tok := s.tok) (lit := s.lit) hg
     rw [hst] at this
-    exact finish_no_panic this m
+    exact absurd hf (finish_no_panic this m')
   all_goals first | exact atEOF_no_panic _ _ | simp
 
 theorem parse_no_panic (b : List UInt8) (m : String) : parse b ≠ .panic m :=
